@@ -531,6 +531,7 @@ def c19(ctx):
         harness_died(ctx, binp, rargs, "rec_pair", rc, err, {"result", "panic", "pair"})
         n_, viol, summ = 0, [], []
     else:
+        C.absorb_report(ctx, rep, {"result", "panic", "pair"}, "rec_pair")
         n_, viol, summ = C.validate_trace(ctx, "Trace_Pair", tr, sub(K_PAIR, PAIRCAP=255), "pair_trace", max_records=400, par=8)
     for (pp, tup) in viol:
         recd = C.record_at(pp, tup[1])
@@ -556,14 +557,19 @@ def c16(ctx):
         shards.append(("obj%d" % nl, "MC_MemmemObjects", sub(K_MM, Alpha={0, 1}, MinN=nl, MaxN=nl, MaxH=mh, Avails={"avx2", "none"},
                                                              Prefs={"auto"}, Depth=dp, Emit=True), OBJ_INV, 4))
     os_ = oracle_shards(ctx)
-    res = run_shards(ctx, shards + os_, timeout=3000)
+    nm = nearmiss_shards(ctx, [6] if q else [6, 7])
+    res = run_shards(ctx, shards + os_ + nm, timeout=3000)
     ovec, on = vec_of(ctx, res, shards, "obj.ndjson")
     vec, n = vec_of(ctx, res, os_, "mm.ndjson")
-    ctx.traces += on + n
+    nvec, nn_ = vec_of(ctx, res, nm, "nearmiss.ndjson")
+    ctx.traces += on + n + nn_
     ctx.nontrivial += on
     for f in ("avx2", "sse2", "fallback"):
         replay_cmd(ctx, binp, "replay-obj", ovec, "obj@%s" % f, {"result", "panic"}, extra=["--lifts", 5 if q else 9, "--force", f])
     mm_replay(ctx, binp, vec, "objects", {"result", "panic"}, 4 if q else 8)
+    # near-miss family, lifted beyond 32-byte needles: reuse of one finder across haystacks that leave the Two-Way /
+    # prefilter machinery in every intermediate state (stale shift, exhausted prefilter) must not change later answers
+    mm_replay(ctx, binp, nvec, "objects", {"result", "panic"}, 8 if q else 12, forces=("avx2", "fallback"), tag="nearmiss")
     # I->S at real constants: random operation histories on real objects, folded through the P-layer object machine by TLC
     for force in ("avx2", "fallback"):
         tr = os.path.join(ctx.dir, "objhist_%s.ndjson" % force)
@@ -600,7 +606,7 @@ def c17(ctx):
     ivec, inn = vec_of(ctx, res, its, "iter.ndjson")
     ctx.traces += n + inn
     ctx.nontrivial += n
-    mm_replay(ctx, binp, vec, "find,rfind,iter,riter", {"alloc"}, 5 if q else 10)
+    mm_replay(ctx, binp, vec, "find,rfind,iter,riter,cfg", {"alloc"}, 5 if q else 10)
     replay_cmd(ctx, binp, "replay-alloc-bytes", ivec, "bytes_alloc", {"alloc"})
     ctx.evaluations += sum_exec(ctx, ["mm_exec", "alloc_probe_exec"])
     return C.finish(ctx, "exploration",
@@ -704,6 +710,21 @@ def c14(ctx):
     replay_cmd(ctx, binp, "replay-pair", rvec, "pair", classes)
     replay_cmd(ctx, binp, "replay-iseq", res["ie"]["vec_path"], "iseq", classes)
     mm_replay(ctx, binp, mvec, "all", classes, 4 if q else 8)
+    # long needles at the real scan cap: pair selection, finders built from pairs with offsets up to 254 (SSE2 / AVX2 /
+    # portable) and the meta searcher; and the extreme-offset packed-pair family at the minimum-length boundary
+    rargs = ["record-pair", "--trace", os.path.join(ctx.dir, "pair_trace.ndjson"), "--count", 300 if q else 3000]
+    rep, rc, err = C.run_harness(ctx, binp, rargs, "rec_pair")
+    if rep is None:
+        harness_died(ctx, binp, rargs, "rec_pair", rc, err, classes)
+    else:
+        C.absorb_report(ctx, rep, classes, "rec_pair")
+    head = os.path.join(ctx.dir, "mm_head.ndjson")
+    with open(head, "w") as o:
+        for i, line in enumerate(open(mvec)):
+            if i >= 40:
+                break
+            o.write(line)
+    replay_cmd(ctx, binp, "replay-guard", head, "guard_ppx", classes, extra=["--lifts", 1])
     miri_vehicles(ctx, [gvec, svec, mvec], classes, [])
     st_thread.join()
     if "skipped" in stress:
